@@ -27,6 +27,8 @@ mod sort;
 mod specification;
 mod tokenizer;
 mod writer;
+#[cfg(a2lfile_verif)]
+pub mod verif_hooks;
 
 pub use itemlist::ItemList;
 pub use parser::ParserError;
